@@ -325,7 +325,11 @@ class Check(FormulaCheck):
     # ------------------------------------------------------------------ setter protocol
     def c_setters(self, spec, rec):
         rnd = self.rng(spec)
-        pool = [0, False, '', [], None, None, 1, 'v', 2.5, [1, 2], True, [[1], [2]], 0.0, (1,), {'a': 1}, -1]
+        import decimal, fractions
+        from .c09 import Falsy
+        # every kind of falsy value is still a value: only None means "nothing set"
+        pool = [0, False, '', [], None, None, 1, 'v', 2.5, [1, 2], True, [[1], [2]], 0.0, (1,), {'a': 1}, -1,
+                (), {}, set(), b'', 0j, -0.0, decimal.Decimal('0'), fractions.Fraction(0), Falsy(), range(0), frozenset()]
         for _ in range(spec['n']):
             e = hx.Env()
             self.e = e
